@@ -12,6 +12,10 @@
      - the standard shift-reduce driver on the RETURNED table accepts exactly
        the sentences of the grammar, for all terminal strings up to length K
        (compared with the Kleene fixpoint of the productions);
+     - for the generated families, which carry their abstract declarations, the
+       same driver accepts exactly the strings the SPECIFICATION denotes under
+       the documented meaning of ( ) [ ] { } {{ }} (Ebnf!Denot), i.e. from the
+       text of the specification to the table;
      - for an operator grammar, x o1 x o2 x is grouped as the declared
        precedence order and associativity dictate.                          *)
 EXTENDS LALR, Ebnf, TLC, Json
@@ -78,6 +82,16 @@ LangOf(c) == PFix(c.prods, [n \in { c.prods[i].h : i \in 1..Len(c.prods) } |-> {
 Words(T) == UNION { [1..n -> T] : n \in 0..K }
 LangOk(c) == LET L == LangOf(c) IN \A w \in Words(SeqSet(c.terms)) : Accepts(c, w) = (w \in L)
 
+\* end to end: the language the SPECIFICATION denotes (documented meaning of the EBNF operators, Ebnf!Denot / StepD)
+\* against the returned table, for cases that carry their abstract declarations
+RECURSIVE DFix(_, _)
+DFix(rules, env) == LET e2 == StepD(rules, env) IN IF e2 = env THEN env ELSE DFix(rules, e2)
+TW(w) == [i \in 1..Len(w) |-> "t:" \o w[i]]
+E2EOk(c) == c.decls = <<>> \/
+            LET rules == RulesOf(c.decls)
+                L == { TW(w) : w \in DFix(rules, Bottom(RuleNames(rules)))["start"] }
+            IN \A w \in Words(SeqSet(c.terms)) : Accepts(c, w) = (w \in L)
+
 \* operator grammars: which operator production is reduced first on  x o1 x o2 x
 RECURSIVE FirstOp(_, _, _, _)
 FirstOp(c, w, j, st) ==      \* the operator terminal of the first reduction by a production with three symbols
@@ -128,6 +142,7 @@ Check(c) ==
      /\ (c.perr # "" \/ c.built \/ c.conflict) \/ rep("NOCONFLICTREPORT")
      /\ (~c.built \/ unresolved \/ IsoOk(c, tab)) \/ rep(IF Nested(tab) THEN "TABLEDIFF-NESTED" ELSE "TABLEDIFF")
      /\ (~c.built \/ LangOk(c)) \/ rep(IF Nested(tab) THEN "LANGUAGE-NESTED" ELSE "LANGUAGE")
+     /\ (~c.built \/ Nested(tab) \/ E2EOk(c)) \/ rep("ENDTOEND")
      /\ (~Nested(tab)) \/ rep("NESTED")
      /\ (~c.built \/ OpsOk(c)) \/ rep("PRECEDENCE")
 
